@@ -134,6 +134,14 @@ MsgRows(t) == SelectSeq(FieldsInOrder(t), LAMBDA f : Bottom(f.t, 0).leaf.k = "ms
 SignRows(t) == SelectSeq(FieldsInOrder(t), LAMBDA f :
                     Bottom(f.t, 0).leaf.k = "int" /\ Bottom(f.t, 0).leaf.n \notin {8, 16, 32, 64})
 
+(* did decoding read outside the buffer anywhere?  (Wire!Rd yields the marker 2 there) *)
+RECURSIVE ReadsOutside(_, _)
+ReadsOutside(t, v) ==
+    CASE IsLeaf(t) -> \E b \in 1..Len(v) : v[b] = 2
+      [] t.k = "alias" -> ReadsOutside(t.to, v)
+      [] t.k = "array" -> \E e \in 1..t.cap : ReadsOutside(t.elem, v[e])
+      [] t.k = "msg" -> \E f \in 1..Len(t.fields) : ReadsOutside(t.fields[f].t, v[f])
+
 (* ---- event guards: each returns "" when the event is explained by the   *)
 (* spec, otherwise the name of the failing clause ----                     *)
 Check(tr, e) ==
@@ -156,6 +164,17 @@ Check(tr, e) ==
             IN  IF obs # e.v THEN "value"
                 ELSE IF "expect" \in DOMAIN e /\ e.expect # e.v THEN "roundtrip"
                 ELSE ""
+      [] e.ev = "DecodeAny" ->
+            \* BEYOND THE LISTED PROPERTIES: decoding an arbitrary buffer.  The cursor semantics are
+            \* total; a hostile "ahead" can move the cursor past the buffer, and the next read is then
+            \* outside it: the Python runtime raises IndexError exactly in that case.
+            LET w == BitsOf(e.bytes)
+                d == Dec(t, w, 0)
+                dv == d.v
+            IN  IF ReadsOutside(t, dv)
+                THEN IF e.outcome = "IndexError" THEN "" ELSE "expected-read-outside-buffer"
+                ELSE IF e.outcome # "value" THEN "unexpected-" \o e.outcome
+                ELSE IF ToSMV(t, dv) # e.v THEN "value" ELSE ""
       [] e.ev = "ReEncode" ->
             \* re-encoding the decoded message reproduces the bytes
             LET bv == ToBitsV(t, e.v)
